@@ -9,8 +9,9 @@ from harness import core
 from harness.gen import ir as G
 from harness.props.c11 import ALPHABET, mutate, repo_docstrings
 
-MODULE = "CddVerif.Properties.C15"
-THEOREMS = ["C15.slice_partition", "C15.split_partial", "C15.haf_header_prefix", "C15.haf_footer_suffix",
+STRUCT = "field_compact_split field_adjacent_split field_absorbed_split field_absorbed_pieces field_absorbed_nl field_unterminated_split field_single_line_split field_single_line_header_lost field_no_token_split field_raises_split field_raises_pieces exact_ordered exact_parts exact_partitions exact_whence field_compact_whence field_adjacent_whence field_absorbed_whence whence_slices not_partitions_of_gt raises_only_not_partition numpy_split numpy_partitions numpy_no_colon_cut numpy_whence numpy_indented_split C15_split_structured idx_ordered header_token_word_needed header_returns_word_needed header_exact_keyword_line_harmless footer_quiet_needed section_start_needed single_line_witness raises_only_witness raises_min_witness rtype_lands_in_footer numpy_body_quiet_needed numpy_indented_instance numpy_underline_needed numpy_format_irrelevant".split()
+MODULE = "CddVerif.Properties.C15Struct"  # structural split theorems; must import Properties.C15 (checked below by listing its theorems too)
+THEOREMS = ["C15Struct." + t for t in STRUCT] + ["C15.slice_partition", "C15.split_partial", "C15.haf_header_prefix", "C15.haf_footer_suffix",
             "C15.whence_preserves_header", "C15.rawParts_prefix_suffix"]
 STYLES = ("rest", "google", "numpydoc")
 PROSE = ["Summary line here.", "Compute the thing quickly.", "Longer paragraph one", "continues on this line.", "Second paragraph.",
@@ -26,7 +27,8 @@ KW_PROSE = {
     "start-Parameters-word": "Parameters given here are forwarded.",
     "mid-:param": "The role :param is used below in the field list.",
 }
-FOOTERS = ["Notes about usage.", ">>> f(1, 2)", "'x'", "Example follows below", "    indented example line", "References are listed elsewhere"]
+FOOTERS = ["Notes about usage.", ">>> f(1, 2)", "'x'", "Example follows below", "    indented example line", "References are listed elsewhere",
+           "Example:", "Usage:", "See also:", "Example::", "Caveat: slow on big inputs"]
 
 
 def render_section(r, ir, style, with_types=True):
